@@ -7,6 +7,7 @@ from . import gen as G
 from .asm import A, T, emit, size_of
 
 HANDLER_BASE = 0x100
+MON_BASE = 0x400              # MVBAR of program-mode runs
 HANDLER_SLOT = 0x80
 KINDS = ['und', 'svc', 'pabt', 'dabt', 'hyp', 'irq', 'fiq']
 VEC = {'reset': 0x00, 'und': 0x04, 'svc': 0x08, 'pabt': 0x0C, 'dabt': 0x10, 'hyp': 0x14, 'irq': 0x18, 'fiq': 0x1C}
@@ -28,9 +29,9 @@ def _intc_const_arm(rd):
     return [A.dp_imm('mov', rd, 0, 0x01, rot=7)]            # 1 ROR 14 = 0x40000
 
 
-def handler_arm(kind, ret, clobber=True):
+def handler_arm(kind, ret, clobber=True, mode=None):
     """ARM-state handler for 'kind' returning with 'ret'; returns list of words"""
-    mode = MODE_OF[kind]
+    mode = mode or MODE_OF[kind]
     adj = {'irq': 4, 'fiq': 4, 'svc': 0, 'und': 0, 'dabt': 8}[kind]
     body = []
     if kind in ('irq', 'fiq'):
@@ -63,8 +64,8 @@ def handler_arm(kind, ret, clobber=True):
     raise ValueError(ret)
 
 
-def handler_thumb(kind, ret, clobber=True):
-    mode = MODE_OF[kind]
+def handler_thumb(kind, ret, clobber=True, mode=None):
+    mode = mode or MODE_OF[kind]
     adj = {'irq': 4, 'fiq': 4, 'svc': 0, 'und': 0, 'dabt': 8}[kind]
     body = []
     if kind in ('irq', 'fiq', 'dabt') or (kind == 'und' and ret == 'patch_retry'):
@@ -87,7 +88,7 @@ def handler_thumb(kind, ret, clobber=True):
 
 def build_low(te, returns, clobber=True):
     """bytes of the LOW page: vectors + handlers.  returns: {'irq': 'subs', ...}.  -> (bytes, {kind: (addr, len_bytes, n_instr)})"""
-    page = bytearray(0x600)
+    page = bytearray(0x800)
     info = {}
     for i, kind in enumerate(['und', 'svc', 'dabt', 'irq', 'fiq']):
         haddr = HANDLER_BASE + HANDLER_SLOT * i
@@ -101,6 +102,19 @@ def build_low(te, returns, clobber=True):
             page[v:v + 4] = emit([T.b(haddr - v), T.NOP], True)
         else:
             page[v:v + 4] = emit([A.b(haddr - v)], False)
+    # Monitor vector table at MVBAR = 0x400 with its own IRQ/FIQ handlers (used when SCR.IRQ / SCR.FIQ route interrupts to Monitor mode)
+    for i, kind in enumerate(['irq', 'fiq']):
+        haddr = MON_BASE + 0x80 + HANDLER_SLOT * i
+        words = (handler_thumb if te else handler_arm)(kind, returns.get('mon_' + kind, returns[kind]), clobber, mode=0x16)
+        code = emit(words, te)
+        assert len(code) <= HANDLER_SLOT
+        page[haddr:haddr + len(code)] = code
+        info['mon_' + kind] = (haddr, len(code), len(words))
+        v = MON_BASE + VEC[kind]
+        page[v:v + 4] = emit([T.b(haddr - v), T.NOP], True) if te else emit([A.b(haddr - v)], False)
+    for off in (0x00, 0x04, 0x08, 0x0C, 0x10, 0x14):
+        v = MON_BASE + off
+        page[v:v + 4] = emit([T.SELF, T.NOP], True) if te else emit([A.SELF], False)
     # unused vectors: branch to self (observable as a stuck run)
     for kind in ('reset', 'pabt', 'hyp'):
         v = VEC[kind]
@@ -263,7 +277,7 @@ def main_state(rng, cfg, mode, thumb, te, extra_sys=None):
         R['SP' + m] = top
     for m in ('usr', 'fiq', 'irq', 'svc', 'abt', 'und', 'mon'):
         R['LR' + m] = rng.getrandbits(32) & ~3
-    sys = {'sctlr': G.sctlr_value(m=0, a=0, u=1, te=te, v=0, br=1), 'vbar': 0}
+    sys = {'sctlr': G.sctlr_value(m=0, a=0, u=1, te=te, v=0, br=1), 'vbar': 0, 'mvbar': MON_BASE}
     if cfg.get('have_security_ext'):
         sys['scr'] = 0
     sys.update(extra_sys or {})
